@@ -72,6 +72,12 @@ def base_closed():
     for idx in (L, M):
         for leaf in T.loop_leaves(idx):
             out.extend(T.closures(leaf))
+    # assembled vectors: loop sums of inflations with loop-dependent dofs (products of two of these over the same index are
+    # the 'product of two integrals' pattern)
+    Ll, Lm = T.loop_leaves(L), T.loop_leaves(M)
+    out.append(('loopsum', ('l', 3), ('inflatearg', (0, 4), Ll[4], Ll[3])))
+    out.append(('loopsum', ('m', 2), ('inflatearg', (0, 4), Lm[4], Lm[3])))
+    out.append(('loopsum', ('l', 3), ('inflatearg', (0, 4), ('exp', (), Ll[4]), Ll[3])))
     return _dedup(out)
 
 
